@@ -16,6 +16,7 @@ func init() { register("C03", LoadTyped, checkC03) }
 func checkC03(c *Check) {
 	p := c.P
 	c.Explanation = "C03 (structural clauses of the hand-written indentation lexer): (1) every token type whose generated lexer action records a line break (stores true to lexerState.gotNewLine) is in the set of token types the token pump returns unchanged while a line break is pending, and the whole-line comment token returns before indentation is synthesised — otherwise a blank or comment line is measured as indentation; (2) the leading-width function is additive with space = 1 and tab = 4 and nothing else (a necessary condition for uniform re-indentation and tab-for-4-spaces to preserve the order of indent widths); (3) in the synthesis loop every push on the indent stack is paired with an emitted INDENT token and every pop with a DEDENT token. Equality of the models of two layouts is not decided."
+	c03LayoutBlind(c)
 	c.Assumptions = append(c.Assumptions, "the generated lexer (sysl_lexer.go) corresponds to SyslLexer.g4 (ANTLR naming convention <TOKEN>_Action / SyslLexer<TOKEN>)")
 	gp := p.SSAPkgs[grammarPkg]
 	if gp == nil {
@@ -435,5 +436,87 @@ func c03Stack(c *Check, pump *ssa.Function, tokConst map[string]int64) {
 	}
 	if n < 2 {
 		c.Undecidedf("STACK-DISCIPLINE", fnName(pump), p.pos(pump.Pos()), "expected a push and a pop branch in the token pump, found %d", n)
+	}
+}
+
+// c03LayoutBlind: blank lines and comment lines change the line numbers of
+// everything after them and nothing else. Line and column numbers of tokens may
+// therefore reach only what is allowed to depend on layout: the recorded
+// source locations and message text. In pkg/parse every read of a token's line
+// or column (GetLine / GetColumn, and the Line/Col fields of a recorded
+// location) flows only into a location being built, a formatted message, or
+// arithmetic feeding those — never into a comparison that steers the listener,
+// and never into listener state.
+func c03LayoutBlind(c *Check) {
+	p := c.P
+	n := 0
+	for _, f := range p.RepoFuncs() {
+		if fnPkgPath(f) != repoMod+"/"+parsePkg || strings.HasSuffix(p.fnFile(f), "_test.go") || strings.HasSuffix(p.fnFile(f), "/error_listener.go") {
+			continue
+		}
+		eachInstr(f, func(_ *ssa.BasicBlock, i ssa.Instruction) {
+			var src ssa.Value
+			what := ""
+			switch x := i.(type) {
+			case *ssa.Call:
+				if x.Call.IsInvoke() && (x.Call.Method.Name() == "GetLine" || x.Call.Method.Name() == "GetColumn") {
+					src, what = x, x.Call.Method.Name()+"()"
+				}
+			case *ssa.UnOp:
+				if own, fld, _, ok := loadedField(x); ok && own != nil && own.Obj().Name() == "SourceContext_Location" && (fld == "Line" || fld == "Col") {
+					src, what = x, "recorded "+fld
+				}
+			}
+			if src == nil {
+				return
+			}
+			n++
+			key := fmt.Sprintf("%s|%s feeds only locations and messages", fnName(f), what)
+			bad := ""
+			seen := map[ssa.Value]bool{}
+			var walk func(v ssa.Value, d int)
+			walk = func(v ssa.Value, d int) {
+				if bad != "" || d > 8 || seen[v] || v.Referrers() == nil {
+					return
+				}
+				seen[v] = true
+				for _, r := range *v.Referrers() {
+					switch y := r.(type) {
+					case *ssa.BinOp:
+						switch y.Op {
+						case token.EQL, token.NEQ, token.LSS, token.GTR, token.LEQ, token.GEQ:
+							bad = "is compared at " + p.pos(y.Pos())
+						default:
+							walk(y, d+1)
+						}
+					case *ssa.Convert:
+						walk(y, d+1)
+					case *ssa.ChangeType:
+						walk(y, d+1)
+					case *ssa.MakeInterface:
+						walk(y, d+1) // formatted into a message
+					case *ssa.Phi:
+						walk(y, d+1)
+					case *ssa.Store:
+						own, fld, _, ok := fieldOfAddr(y.Addr)
+						switch {
+						case ok && own != nil && own.Obj().Name() == "SourceContext_Location":
+						case ok && own != nil && (strings.Contains(own.Obj().Name(), "Listener") || strings.Contains(own.Obj().Name(), "listener")):
+							bad = "is kept in listener state (" + own.Obj().Name() + "." + fld + ") at " + p.pos(y.Pos())
+						}
+					case ssa.CallInstruction:
+						// handed to the location constructor, a formatter or a logger: fine
+					}
+				}
+			}
+			walk(src, 0)
+			c.Cond(bad == "", "LAYOUT-BLIND", key, p.pos(i.Pos()),
+				"the position is used only to build a location or a message",
+				"a token position "+bad+": inserting a blank line or a comment line changes what the listener builds, not only where it says it stands")
+		})
+	}
+	c.Counts["position_reads"] = n
+	if n < 3 {
+		c.Undecidedf("LAYOUT-BLIND", "pkg/parse", "-", "only %d reads of token positions found: unresolved anchor", n)
 	}
 }
